@@ -116,6 +116,8 @@ def run(tier):
                 cand = [n for n in RUST_KEYWORDS + GENERATED if n in legal] + ["Value", "Local"]
             else:
                 cand = [n for n in TYPE_NAMES if n in legal] + [n.capitalize() for n in kw_legal]
+                if pos in ("model", "class", "class_constructed_before_declaration", "enum", "newtype"):
+                    cand += kw_legal  # a type may be named in lower case, hence also like a Rust keyword
             for n in dict.fromkeys(cand):
                 if n not in used:
                     cases.append((pos, n, rename(BASE, ident, n)))
@@ -137,6 +139,12 @@ def run(tier):
                 p, i = tpos[(k * 3 + j * 4) % len(tpos)]
                 if n not in used:
                     cases.append((p, n, rename(BASE, i, n)))
+        # lower-case keyword names for types: every keyword as the name of one of the model / class positions (rotating)
+        tp = [("model", "Item"), ("class", "Tank"), ("class_constructed_before_declaration", "Bin")]
+        for k, n in enumerate(kw_legal):
+            p_, i_ = tp[k % len(tp)]
+            if n not in used:
+                cases.append((p_, n, rename(BASE, i_, n)))
         # lower-case type names matter where constructor detection falls back on capitalisation
         for n in ("point", "lower_name"):
             if n in legal and n not in used:
